@@ -416,6 +416,23 @@ impl Drop for QueryState<'_> {
             self.machine.machine_st.b = self.stub_b;
         }
 
+        // the setup_call_cleanup/3 blocks of the abandoned goal refer to
+        // the discarded choice points: forget them with their frames.
+        let machine_st = &mut self.machine.machine_st;
+
+        while let Some(&(_, b_cutoff, prev_block)) = machine_st.cont_pts.last() {
+            if b_cutoff < self.stub_b {
+                break;
+            }
+
+            machine_st.cont_pts.pop();
+            machine_st.scc_block = prev_block;
+        }
+
+        if machine_st.cont_pts.is_empty() {
+            machine_st.run_cleaners_fn = |_| false;
+        }
+
         self.machine.trust_me();
     }
 }
